@@ -29,11 +29,11 @@ type IntCfg struct {
 type Trace struct {
 	Prog    *gprog.Prog       `json:"prog"`
 	Script  gprog.Script      `json:"script"`
-	Ints    map[string]IntCfg `json:"ints"`              // graph path ("" = top level, "a" = sub-graph node a) -> interrupt points
-	Rerun   []string          `json:"rerun,omitempty"`   // top-level lambda nodes that ask for InterruptAndRerun on their first attempt
-	Pattern []string          `json:"pattern"`           // calling paradigm of the k-th call, cyclic
-	NoID    bool              `json:"no_id,omitempty"`   // call without a checkpoint id
-	Modify  bool              `json:"modify,omitempty"`  // pass a StateModifier on every resume (bumps St.Counter)
+	Ints    map[string]IntCfg `json:"ints"`             // graph path ("" = top level, "a" = sub-graph node a) -> interrupt points
+	Rerun   []string          `json:"rerun,omitempty"`  // top-level lambda nodes that ask for InterruptAndRerun on their first attempt
+	Pattern []string          `json:"pattern"`          // calling paradigm of the k-th call, cyclic
+	NoID    bool              `json:"no_id,omitempty"`  // call without a checkpoint id
+	Modify  bool              `json:"modify,omitempty"` // pass a StateModifier on every resume (bumps St.Counter)
 }
 
 func (t *Trace) String() string {
